@@ -7,16 +7,19 @@ canonical form = entries rounded to 1e-10, BFS to a fixed word length) plus S ov
   phased permutation matrices, the DFT matrix, and every signed permutation + a deterministic 1e-14 pattern
   (exact zeros replaced by tolerance-sized numbers).  Each goes through rectangular, rectangular_phase_end,
   rectangular_MZ, rectangular_symmetric, triangular, triangular_compact, rectangular_compact, sun_compact.
-* complex symmetric matrices for takagi: ALL symmetric k x k matrices over the entry alphabet {0, 1, -1, 1j, .5},
+* complex symmetric matrices for takagi: ALL symmetric k x k matrices over the entry alphabet {0, 1, -1, 1j, .5} for
+  k <= 3 (15 625 at k = 3) and over {0, 1, 1j} for k = 4 (59 049),
   each as is, + an asymmetric 1e-14 pattern (inside the documented symmetry tolerance), + a symmetric complex
   1e-14 pattern (splits degenerate singular values below the documented 13-decimal rounding) and + the same pattern
   at 1e-12 (splits them just above it).
 * symplectic matrices (1..3 modes, xxpp ordering): BFS orbit of {R(j, pi/2), R(j, .6), S(j, .4), BS(j,j+1, pi/4),
   S2(j,j+1, .3)}; every orbit element S goes through bloch_messiah, and S D S^T through williamson for every D of the
   symplectic-spectrum menu (degenerate and non-degenerate).  Boundary of bloch_messiah's documented 9-decimal
-  rounding: A . S0(.4) S1(.4 + gap) . B for all pairs (A, B) of the passive two-mode orbit and gap in {0, 1e-12, 1e-8}.
-* graphs: all labelled simple graphs on <= 4 (thorough: 5) nodes x mean photon per mode {.5, 1} for graph_embed; all
-  0/1 k x k biadjacency matrices (k <= 3, thorough 4) x the same means for bipartite_graph_embed.
+  rounding and 1e-10 passivity tolerance: A . S0(r1) S1(r2) . B for all pairs (A, B) of the passive two-mode orbit and
+  (r1, r2) in {(.4, .4), (.4, .4 + 1e-12), (.4, .4 + 1e-8), (1e-12, 0), (1e-7, 0), (1e-7, 1e-7)}.
+* graphs: all labelled graphs on <= 4 (thorough: 5) nodes whose edges carry a weight from {1, 1j} (this contains every
+  plain 0/1 graph) x mean photon per mode {.5, 1} for graph_embed; all k x k biadjacency matrices over {0, 1, 1j}
+  (k <= 2, thorough 3) and over {0, 1} (k = 3, thorough 4) x the same means for bipartite_graph_embed.
 * invalid inputs (non-square, isometries, non-symmetric by 1e-6, non-unitary by 1e-6, non-symplectic, orthogonal
   but anti-symplectic, odd dimension, non-positive, empty graph, 2x2 for sun_compact): every routine must raise.
 
@@ -277,31 +280,39 @@ def noise_sym(k, scale=1e-14):
 ALPHA = (0.0, 1.0, -1.0, 1j, 0.5)
 
 
-def sym_from_index(k, idx):
-    """idx in [0, 5**(k(k+1)/2)) -> symmetric k x k matrix over ALPHA (upper triangle in row-major order)."""
+ALPHA3 = (0.0, 1.0, 1j)  # reduced alphabet for k = 4
+
+
+def sym_from_index(k, idx, alphabet=ALPHA):
+    """idx in [0, len(alphabet)**(k(k+1)/2)) -> symmetric k x k matrix over the alphabet (upper triangle, row-major)."""
     A = np.zeros((k, k), dtype=complex)
     for i in range(k):
         for j in range(i, k):
-            idx, d = divmod(idx, len(ALPHA))
-            A[i, j] = A[j, i] = ALPHA[d]
+            idx, d = divmod(idx, len(alphabet))
+            A[i, j] = A[j, i] = alphabet[d]
     return A
 
 
-def graph_from_index(k, idx):
-    A = np.zeros((k, k))
+WEIGHTS = (0.0, 1.0, 1j)  # base 2: plain graphs; base 3: edges may also carry the weight i
+
+
+def graph_from_index(k, idx, base=2):
+    """idx in [0, base**(k(k-1)/2)) -> symmetric zero-diagonal matrix over WEIGHTS[:base]; index 0 is the empty graph"""
+    A = np.zeros((k, k), dtype=complex if base > 2 else float)
     for i in range(k):
         for j in range(i + 1, k):
-            idx, d = divmod(idx, 2)
-            A[i, j] = A[j, i] = float(d)
+            idx, d = divmod(idx, base)
+            A[i, j] = A[j, i] = WEIGHTS[d]
     return A
 
 
-def biadj_from_index(k, idx):
-    A = np.zeros((k, k))
+def biadj_from_index(k, idx, base=2):
+    """idx in [0, base**(k*k)) -> k x k biadjacency matrix over WEIGHTS[:base]; index 0 is the empty graph"""
+    A = np.zeros((k, k), dtype=complex if base > 2 else float)
     for i in range(k):
         for j in range(k):
-            idx, d = divmod(idx, 2)
-            A[i, j] = float(d)
+            idx, d = divmod(idx, base)
+            A[i, j] = WEIGHTS[d]
     return A
 
 
@@ -377,14 +388,21 @@ def takagi_class(N, variant):
 
 
 def bloch_class(S):
+    """structural class of a symplectic matrix from its singular values s_1 >= .. >= s_n >= 1 >= 1/s_n >= .. >= 1/s_1"""
     n = S.shape[0] // 2
-    sv = np.sort(np.linalg.svd(S, compute_uv=False))[::-1][:n]
+    sv = np.sort(np.linalg.svd(S, compute_uv=False))[::-1]
     if float(np.max(np.abs(sv - 1))) <= 1e-9:
         return "passive"
-    if spectrum_class(sv) == "degenerate":
-        return "degenerate"
-    if spectrum_class(sv, eps=1e-5) == "degenerate":
-        return "near-degenerate"
+    gaps = -np.diff(sv)
+    if np.any((gaps > 1e-9 * sv[0]) & (gaps <= 1e-5 * sv[0])):
+        return "near-degenerate"  # distinct singular values closer than 1e-5 (includes barely squeezed modes)
+    top = sv[:n]
+    idle = np.abs(top - 1) <= 1e-9
+    if int(idle.sum()) >= 2:
+        return "multiple-idle-modes"  # singular value 1 with multiplicity >= 4 next to squeezed modes
+    active = top[~idle]
+    if len(active) > 1 and float(np.min(-np.diff(active))) <= 1e-9 * sv[0]:
+        return "equal-squeezers"
     return "simple"
 
 
@@ -587,6 +605,11 @@ def run_mesh(name, V):
     raise KeyError(name)
 
 
+def _o(case):
+    o = case.get("origin") if isinstance(case, dict) else None
+    return f" [{o}; printed entries are rounded, exact ones are in the replay file]" if o else ""
+
+
 def brief(out):
     s = repr(out)
     s = " ".join(s.split())
@@ -612,14 +635,14 @@ def check_mesh(name, V, res, case):
     try:
         out, rec = run_mesh(name, V)
     except Structure as e:
-        res.violation(f"C17|{name}|structure|{cls}", f"{name}(U), U = {show(V)} (k={k}, {cls}): malformed result: {e}", case)
+        res.violation(f"C17|{name}|structure|{cls}", f"{name}(U), U = {show(V)}{_o(case)} (k={k}, {cls}): malformed result: {e}", case)
         return
     except Exception as e:
-        res.violation(f"C17|{name}|raised-on-valid|{cls}", f"{name}(U) raised {type(e).__name__}: {e} for the unitary U = {show(V)} (k={k}, {cls}; |UU^+ - 1| = {_err(V @ V.conj().T, np.eye(k)):.1e})", case)
+        res.violation(f"C17|{name}|raised-on-valid|{cls}", f"{name}(U) raised {type(e).__name__}: {e} for the unitary U = {show(V)}{_o(case)} (k={k}, {cls}; |UU^+ - 1| = {_err(V @ V.conj().T, np.eye(k)):.1e})", case)
         return
     e = _err(rec, V)
     if not (e <= TOL):
-        res.violation(f"C17|{name}|reconstruction|{cls}", f"{name}(U) for U = {show(V)} (k={k}, {cls}) returned {brief(out)}; the documented product of these factors is {show(rec)}, max entry error {e:.3g}", case)
+        res.violation(f"C17|{name}|reconstruction|{cls}", f"{name}(U) for U = {show(V)}{_o(case)} (k={k}, {cls}) returned {brief(out)}; the documented product of these factors is {show(rec)}, max entry error {e:.3g}", case)
     if name == "triangular" and not is_diag(V):
         r1, r2 = rec_triangular_literal(out, k)
         if _err(r1, V) <= TOL or _err(r2, V) <= TOL:
@@ -641,10 +664,10 @@ def check_takagi(N, variant, res, case):
     try:
         rl, U = dec.takagi(N.copy())
     except Exception as e:
-        res.violation(f"C17|takagi|raised-on-valid|{cls}", f"takagi(N) raised {type(e).__name__}: {e} for the symmetric N = {show(N)} (|N - N^T| = {np.linalg.norm(N - N.T):.1e})", case)
+        res.violation(f"C17|takagi|raised-on-valid|{cls}", f"takagi(N) raised {type(e).__name__}: {e} for the symmetric N = {show(N)}{_o(case)} (|N - N^T| = {np.linalg.norm(N - N.T):.1e})", case)
         return
     rl, U = np.asarray(rl), np.asarray(U)
-    desc = f"takagi(N), N = {show(N)} ({cls}) returned rl = {show(rl)}, U = {show(U)}"
+    desc = f"takagi(N), N = {show(N)}{_o(case)} ({cls}) returned rl = {show(rl)}, U = {show(U)}"
     if rl.shape != (k,) or U.shape != (k, k):
         res.violation(f"C17|takagi|structure|{cls}", f"{desc}: wrong shapes {rl.shape}, {U.shape}", case)
         return
@@ -673,10 +696,10 @@ def check_williamson(V, nu, res, case):
     try:
         Db, S = dec.williamson(V.copy())
     except Exception as e:
-        res.violation(f"C17|williamson|raised-on-valid|{cls}", f"williamson(V) raised {type(e).__name__}: {e} for the positive definite V = {show(V)} with symplectic spectrum {nu}", case)
+        res.violation(f"C17|williamson|raised-on-valid|{cls}", f"williamson(V) raised {type(e).__name__}: {e} for the positive definite V = {show(V)}{_o(case)} with symplectic spectrum {nu}", case)
         return
     Db, S = np.asarray(Db), np.asarray(S)
-    desc = f"williamson(V), V = {show(V)} (symplectic spectrum {tuple(nu)}, {cls}) returned Db = {show(np.diag(Db)) if Db.ndim == 2 else Db}, S = {show(S)}"
+    desc = f"williamson(V), V = {show(V)}{_o(case)} (symplectic spectrum {tuple(nu)}, {cls}) returned Db = {show(np.diag(Db)) if Db.ndim == 2 else Db}, S = {show(S)}"
     if Db.shape != V.shape or S.shape != V.shape:
         res.violation(f"C17|williamson|structure|{cls}", f"{desc}: wrong shapes", case)
         return
@@ -711,10 +734,10 @@ def check_bloch(S, res, case):
     try:
         O1, D, O2 = dec.bloch_messiah(S.copy())
     except Exception as e:
-        res.violation(f"C17|bloch_messiah|raised-on-valid|{cls}", f"bloch_messiah(S) raised {type(e).__name__}: {e} for the symplectic S = {show(S)} (|S^T Omega S - Omega| = {_err(S.T @ omega(n) @ S, omega(n)):.1e})", case)
+        res.violation(f"C17|bloch_messiah|raised-on-valid|{cls}", f"bloch_messiah(S) raised {type(e).__name__}: {e} for the symplectic S = {show(S)}{_o(case)} (|S^T Omega S - Omega| = {_err(S.T @ omega(n) @ S, omega(n)):.1e})", case)
         return
     O1, D, O2 = np.asarray(O1), np.asarray(D), np.asarray(O2)
-    desc = f"bloch_messiah(S), S = {show(S)} ({n} modes, {cls}) returned ut1 = {show(O1)}, st1 = {show(np.diag(D)) if D.ndim == 2 else D}, v1 = {show(O2)}"
+    desc = f"bloch_messiah(S), S = {show(S)}{_o(case)} ({n} modes, {cls}) returned ut1 = {show(O1)}, st1 = {show(np.diag(D)) if D.ndim == 2 else D}, v1 = {show(O2)}"
     if O1.shape != S.shape or D.shape != S.shape or O2.shape != S.shape or np.iscomplexobj(O1) or np.iscomplexobj(D) or np.iscomplexobj(O2):
         res.violation(f"C17|bloch_messiah|structure|{cls}", f"{desc}: wrong shapes or complex factors", case)
         return
@@ -977,16 +1000,17 @@ def work(task):
                 case = {"family": "mesh", "routine": name, "M": enc(V), "origin": origin}
                 check_mesh(name, V, res, case)
     elif kind == "TAK":
-        _, k, lo, hi = task
-        ea, es, es12 = noise_asym(k), noise_sym(k), noise_sym(k, 1e-12)
+        _, k, alphabet, variants, lo, hi = task
+        noise = {"exact": 0.0, "asym-1e-14": noise_asym(k), "sym-1e-14": noise_sym(k), "sym-1e-12": noise_sym(k, 1e-12)}
+        if not np.linalg.norm(noise["asym-1e-14"] - noise["asym-1e-14"].T) < 0.5e-13:
+            raise RuntimeError("harness bug: asymmetric pattern exceeds half of takagi's documented tolerance 1e-13")
         for idx in range(lo, hi):
-            A = sym_from_index(k, idx)
+            A = sym_from_index(k, idx, alphabet)
             if not is_diag(A):
                 res.nt += 1
-            if not np.linalg.norm(ea - ea.T) < 0.5e-13:
-                raise RuntimeError("harness bug: asymmetric pattern exceeds half of takagi's documented tolerance 1e-13")
-            for variant, N in (("exact", A), ("asym-1e-14", A + ea), ("sym-1e-14", A + es), ("sym-1e-12", A + es12)):
-                case = {"family": "takagi", "routine": "takagi", "M": enc(N), "variant": variant, "origin": f"alphabet index {idx}, k={k}, {variant}"}
+            for variant in variants:
+                N = A + noise[variant]
+                case = {"family": "takagi", "routine": "takagi", "M": enc(N), "variant": variant, "origin": f"index {idx} of the symmetric {k}x{k} matrices over {alphabet}, variant {variant}"}
                 check_takagi(N, variant, res, case)
     elif kind == "TAKINV":
         _, k, lo, hi = task
@@ -1012,25 +1036,25 @@ def work(task):
                 check_williamson(V, nu, res, {"family": "williamson", "routine": "williamson", "M": enc(V), "nu": list(nu), "origin": f"S D S^T, S = {origin}, D = diag{nu + nu}"})
     elif kind == "SYMB":
         # two-mode S = A . squeeze(r1, r2) . B with nearly equal squeezers, A and B passive orbit elements
-        for A, wa, B, wb, d in task[1]:
-            S = A @ sS(0, 0.4, 2) @ sS(1, 0.4 + d, 2) @ B
+        for A, wa, B, wb, (r1, r2) in task[1]:
+            S = A @ sS(0, r1, 2) @ sS(1, r2, 2) @ B
             res.nt += 1
-            check_bloch(S, res, {"family": "bloch", "routine": "bloch_messiah", "M": enc(S), "origin": f"({wa}) . S0(.4) S1(.4 + {d:g}) . ({wb})"})
+            check_bloch(S, res, {"family": "bloch", "routine": "bloch_messiah", "M": enc(S), "origin": f"({wa}) . S0({r1!r}) S1({r2!r}) . ({wb})"})
     elif kind == "GR":
-        _, k, lo, hi = task
+        _, k, base, lo, hi = task
         for idx in range(lo, hi):
-            A = graph_from_index(k, idx)
+            A = graph_from_index(k, idx, base)
             res.nt += 1
             for mean in MEANS:
-                check_graph_embed(A, mean, res, {"family": "graph", "routine": "graph_embed", "M": enc(A), "mean": mean, "origin": f"graph index {idx} on {k} nodes"})
+                check_graph_embed(A, mean, res, {"family": "graph", "routine": "graph_embed", "M": enc(A), "mean": mean, "origin": f"graph index {idx} on {k} nodes, edge weights {WEIGHTS[1:base]}"})
     elif kind == "BIP":
-        _, k, lo, hi = task
+        _, k, base, lo, hi = task
         for idx in range(lo, hi):
-            A = biadj_from_index(k, idx)
+            A = biadj_from_index(k, idx, base)
             if not is_diag(A):
                 res.nt += 1
             for mean in MEANS:
-                check_bipartite(A, mean, res, {"family": "bipartite", "routine": "bipartite_graph_embed", "M": enc(A), "mean": mean, "origin": f"biadjacency index {idx}, {k}x{k}"})
+                check_bipartite(A, mean, res, {"family": "bipartite", "routine": "bipartite_graph_embed", "M": enc(A), "mean": mean, "origin": f"biadjacency index {idx}, {k}x{k}, weights {WEIGHTS[1:base]}"})
     elif kind == "INV":
         for name, k2, M, extra in task[1]:
             check_invalid(name, k2, M, res, {"family": "invalid", "routine": name, "kind": k2, "M": enc(M), "extra": extra}, extra)
@@ -1055,8 +1079,9 @@ def run(ctx):
     u_depth = 4 if quick else 5
     s_depth = {1: 4, 2: 3, 3: 2} if quick else {1: 5, 2: 5, 3: 3}
     tak_k = (1, 2, 3)
-    gr_k = (1, 2, 3, 4) if quick else (1, 2, 3, 4, 5)
-    bip_k = (1, 2, 3) if quick else (1, 2, 3, 4)
+    # (nodes, weight base): base 3 = edge weights {1, 1j} (contains every plain graph), base 2 = plain 0/1 graphs
+    gr_kb = ((1, 3), (2, 3), (3, 3), (4, 3)) if quick else ((1, 3), (2, 3), (3, 3), (4, 3), (5, 3))
+    bip_kb = ((1, 3), (2, 3), (3, 2)) if quick else ((1, 3), (2, 3), (3, 3), (4, 2))
 
     tasks = []
     states = transitions = validated = 0
@@ -1120,36 +1145,42 @@ def run(ctx):
     pst, ptr, plevels = bfs_orbit(pgens, 4, 2 if quick else 3, float)
     states += len(pst)
     transitions += ptr
-    gaps = (0.0, 1e-12, 1e-8)
-    orbit_info["passive_n2_for_near_degenerate_squeezers"] = {"generators": [g for g, _ in pgens], "word_length": 2 if quick else 3, "states": len(pst), "transitions": ptr, "new_states_per_depth": plevels, "squeezer_gaps": list(gaps)}
-    symb = [(A, word_str(pgens, wa), B, word_str(pgens, wb), d) for A, wa in pst for B, wb in pst for d in gaps]
+    # equal / equal below the rounding / equal above the rounding; passive below the documented tol 1e-10 / barely active
+    squeezers = ((0.4, 0.4), (0.4, 0.4 + 1e-12), (0.4, 0.4 + 1e-8), (1e-12, 0.0), (1e-7, 0.0), (1e-7, 1e-7))
+    orbit_info["passive_n2_for_near_degenerate_squeezers"] = {"generators": [g for g, _ in pgens], "word_length": 2 if quick else 3, "states": len(pst), "transitions": ptr, "new_states_per_depth": plevels, "squeezers_r1_r2": [list(x) for x in squeezers]}
+    symb = [(A, word_str(pgens, wa), B, word_str(pgens, wb), rr) for A, wa in pst for B, wb in pst for rr in squeezers]
     n_symb = len(symb)
     for ch in chunks(symb, 150):
         tasks.append(("SYMB", ch))
 
     # ---- alphabet families
-    n_tak = 0
+    n_tak = n_tak_calls = 0
+    all_variants = tuple(TAKAGI_VARIANTS)
+    tak_families = [(k, ALPHA, all_variants) for k in tak_k] + [(4, ALPHA3, ("exact",) if quick else all_variants)]
+    for k, alphabet, variants in tak_families:
+        total = len(alphabet) ** (k * (k + 1) // 2)
+        n_tak += total
+        n_tak_calls += total * len(variants)
+        for a, b in ranges(total, 250 if len(variants) > 1 else 1000):
+            tasks.append(("TAK", k, alphabet, variants, a, b))
     for k in tak_k:
         total = len(ALPHA) ** (k * (k + 1) // 2)
-        n_tak += total
-        for a, b in ranges(total, 250):
-            tasks.append(("TAK", k, a, b))
         if k <= 2 or not quick:
             for a, b in ranges(total, 1000):
                 tasks.append(("TAKINV", k, a, b))
     n_tak_inv = sum(len(ALPHA) ** (k * (k + 1) // 2) * (k * (k - 1) // 2) for k in tak_k if k <= 2 or not quick)
     n_graphs = 0
-    for k in gr_k:
-        total = 2 ** (k * (k - 1) // 2)
+    for k, base in gr_kb:
+        total = base ** (k * (k - 1) // 2)
         n_graphs += total - 1
-        for a, b in ranges(total, 64, lo=1):  # index 0 = empty graph: documented-impossible, goes to the invalid menu
-            tasks.append(("GR", k, a, b))
+        for a, b in ranges(total, 256, lo=1):  # index 0 = empty graph: no scaling exists, goes to the invalid menu
+            tasks.append(("GR", k, base, a, b))
     n_bip = 0
-    for k in bip_k:
-        total = 2 ** (k * k)
+    for k, base in bip_kb:
+        total = base ** (k * k)
         n_bip += total - 1
         for a, b in ranges(total, 256, lo=1):
-            tasks.append(("BIP", k, a, b))
+            tasks.append(("BIP", k, base, a, b))
     inv = invalid_inputs(ctx.tier)
     for ch in chunks(inv, 100):
         tasks.append(("INV", ch))
@@ -1168,19 +1199,19 @@ def run(ctx):
 
     n_sym_wil = sum(orbit_info[f"symplectic_n{n}"]["states"] * len(WILLIAMSON_D[n]) for n in (1, 2, 3))
     n_u_calls = n_unitaries * len(MESHES)
-    n_var = len(TAKAGI_VARIANTS)
-    expected = n_u_calls + n_var * n_tak + n_tak_inv + n_sympl + n_symb + n_sym_wil + 2 * n_graphs + 2 * n_bip + len(inv)
+    expected = n_u_calls + n_tak_calls + n_tak_inv + n_sympl + n_symb + n_sym_wil + 2 * n_graphs + 2 * n_bip + len(inv)
     if ctx.exhaustive and ctx.n != expected:
         raise RuntimeError(f"evaluated {ctx.n} routine calls, the enumeration has {expected}")
     ctx.cov["states"] = states
     ctx.cov["transitions"] = transitions
-    ctx.cov["traces_validated_against_impl"] = validated + n_var * n_tak + n_symb + n_sym_wil + n_graphs * 2 + n_bip * 2
+    ctx.cov["traces_validated_against_impl"] = validated + n_tak_calls + n_symb + n_sym_wil + n_graphs * 2 + n_bip * 2
     ctx.cov["matrices_pushed_through_real_routines"] = {
         "unitaries (orbit + signed permutations + perturbed permutations + DFT) x 8 mesh routines": n_unitaries,
         "symplectic orbit elements -> bloch_messiah": n_sympl,
         "S D S^T -> williamson": n_sym_wil,
         "A . S0(.4) S1(.4 + gap) . B near-degenerate squeezers -> bloch_messiah": n_symb,
-        "symmetric alphabet matrices x 4 variants (exact, 2 patterns of 1e-14, 1 of 1e-12) -> takagi": n_var * n_tak,
+        "symmetric alphabet matrices x variants (exact, 2 patterns of 1e-14, 1 of 1e-12) -> takagi": n_tak_calls,
+        "distinct symmetric alphabet matrices": n_tak,
         "graphs x 2 means -> graph_embed": 2 * n_graphs,
         "biadjacency matrices x 2 means -> bipartite_graph_embed": 2 * n_bip,
         "invalid inputs (all routines)": len(inv) + n_tak_inv,
@@ -1191,10 +1222,10 @@ def run(ctx):
         "unitary_word_length": u_depth,
         "unitary_k": [1, 2, 3, 4],
         "symplectic_word_length_by_modes": s_depth,
-        "takagi_k": list(tak_k),
-        "takagi_alphabet": [str(a) for a in ALPHA],
-        "graph_nodes": list(gr_k),
-        "biadjacency_k": list(bip_k),
+        "takagi_families_(k, alphabet, variants)": [[k, [str(a) for a in al], list(v)] for k, al, v in tak_families],
+        "graph_(nodes, weight_alphabet_size)": [list(x) for x in gr_kb],
+        "biadjacency_(k, weight_alphabet_size)": [list(x) for x in bip_kb],
+        "graph_weight_alphabet": [str(w) for w in WEIGHTS],
         "mean_photon_per_mode": list(MEANS),
         "tolerance": TOL,
     }
